@@ -344,7 +344,7 @@ type c11BoxRoot struct{}
 
 func (r *c11BoxRoot) Resolve(field *ggql.Field, args map[string]interface{}) (interface{}, error) {
 	switch field.Name {
-	case "query", "inner":
+	case "query", "inner", "mutation":
 		return r, nil
 	case "boxes":
 		return []interface{}{r, r}, nil
@@ -359,17 +359,37 @@ const c11BoxSDL = `type Query { box(width: Int!, tag: String): String crate(widt
 // and the operations are resolved in random order; every answer must equal the answer the same operation gets from a
 // fresh parse on a FRESH root - what one resolution supplied or omitted is nothing the next one may inherit.
 func c11SuppliedThenOmitted(c *run.Ctx) int {
+	// meta-fields in a fragment shared by a query and a mutation (both root types implement the fragment's interface):
+	// __schema and __type belong to the query root only, whichever operation walked the fragment first
+	n := c11OpsHistory(c, "meta-fields-in-a-fragment-shared-by-query-and-mutation",
+		`interface Node { id: String } type Query implements Node { id: String inner: Query } type Mutation implements Node { id: String set: String }`,
+		`query Q { ...F id }
+mutation M { ...F set }
+query Q2 { inner { ...F } }
+mutation M2 { set ...G }
+query Q3 { ...G }
+fragment F on Node { id __typename __type(name: "Query") { name } __schema { queryType { name } } }
+fragment G on Node { t: __typename ... on Node { __schema { mutationType { name } } } }`,
+		[]c11Op{{"Q", nil}, {"M", nil}, {"Q2", nil}, {"M2", nil}, {"Q3", nil}})
 	doc := `query Given { box(width: 3, tag: "t") inner { crate(width: 1, height: 5) } boxes { box(width: 4) } }
 query Missing { box(tag: "only") inner { crate(height: 7) } boxes { box(tag: "z") } }
 query Partly($w: Int) { box(width: $w) inner { crate(width: 2) } }
 query Plain { inner { inner { boxes { crate(width: 9) } } } }`
-	ops := []struct {
-		name string
-		vars map[string]interface{}
-	}{{"Given", nil}, {"Missing", nil}, {"Partly", map[string]interface{}{"w": 6}}, {"Partly", nil}, {"Plain", nil}}
+	ops := []c11Op{{"Given", nil}, {"Missing", nil}, {"Partly", map[string]interface{}{"w": 6}}, {"Partly", nil}, {"Plain", nil}}
+	return n + c11OpsHistory(c, "operations-supplying-different-arguments", c11BoxSDL, doc, ops)
+}
+
+type c11Op struct {
+	name string
+	vars map[string]interface{}
+}
+
+// c11OpsHistory: the operations of one parsed document resolved in random order on one root; every answer must equal the
+// answer the same operation gets from a fresh parse on a fresh root.
+func c11OpsHistory(c *run.Ctx, tag, sdl, doc string, ops []c11Op) int {
 	mk := func() (*ggql.Root, *ggql.Executable, error) {
 		root := ggql.NewRoot(&c11BoxRoot{})
-		if err := root.ParseString(c11BoxSDL); err != nil {
+		if err := root.ParseString(sdl); err != nil {
 			return nil, nil, err
 		}
 		exe, err := root.ParseExecutableString(doc)
@@ -417,12 +437,12 @@ query Plain { inner { inner { boxes { crate(width: 9) } } } }`
 			done++
 			c.Count("calls_compared", 1)
 			if got != alone[oi] {
-				c.Violation("c11-stale", map[string]interface{}{"sdl": c11BoxSDL, "document": doc, "history": hist, "step": step, "after_the_history": got, "on_a_fresh_root": alone[oi]})
+				c.Violation("c11-stale", map[string]interface{}{"sdl": sdl, "document": doc, "history": hist, "step": step, "after_the_history": got, "on_a_fresh_root": alone[oi]})
 				break
 			}
 		}
-		c.Eval("supplied-then-omitted|"+strings.Join(hist, "|"), true)
-		c.Bucket("history_length", "operations-supplying-different-arguments")
+		c.Eval(tag+"|"+strings.Join(hist, "|"), true)
+		c.Bucket("history_length", tag)
 	}
 	return done
 }
